@@ -476,6 +476,33 @@ def run(prog, tier):
                 continue
             byname.append(f)
             check_by_name(prog, res, f, cls_pos, cls_idx, set(vecs))
+    # ---- reported size = size of the container the positional accessors index -----------------
+    nsz = 0
+    pos_conts = {}
+    for f_, cont in positional:
+        if cont:
+            pos_conts.setdefault(f_.cls, set()).add(cont)
+    for q, conts in sorted(pos_conts.items()):
+        for m in prog.classes[q]['methods']:
+            if m['access'] != 'public' or m['implicit'] or m['kind'] != 'method' or m['params'] or m['ret'] != SIZE_T or not m['name'].startswith('nb') or not m.get('const'):
+                continue
+            g_ = prog.funcs.get(m['usr'])
+            if g_ is None or g_.body is None:
+                continue
+            Rg = Renderer(g_)
+            rets = [Rg.render(r_['ch'][0]) for r_ in g_.all_nodes({'ReturnStmt'}) if r_.get('ch')]
+            rets = [re.sub(r'^\((?:unsigned |signed )?\w[\w ]*\)', '', r_) for r_ in rets]
+            inst = '%s::%s()' % (q.split('::')[-1], m['name'])
+            hit = [c_ for c_ in conts if rets == ['this.%s.size' % c_]]
+            mention = [c_ for c_ in conts if any(('this.' + c_) in r_ for r_ in rets)]
+            if hit:
+                nsz += 1
+                res.ok('reported-size', inst, g_.loc(), 'returns the size of %s, the container the positional accessor indexes' % hit[0], function=g_.sig, expr='size:' + m['name'])
+            elif mention:
+                nsz += 1
+                res.viol('reported-size', inst, g_.loc(), 'the reported size is %s, not the size of %s, which the positional accessor indexes: positions between the reported and the real size return an element '
+                         'instead of throwing std::out_of_range, and every search that runs to the reported size stops short' % (rets, mention[0]), function=g_.sig, expr='size:' + m['name'])
+    res.minimum('size accessors of positionally indexed containers', nsz, 5)
     res.minimum('positional accessors', len(positional), 15)
     res.minimum('index-by-name functions', len(idxfns), 4)
     res.minimum('by-name accessors', len(byname), 8)
